@@ -843,19 +843,28 @@ func bigOf(ip net.IP) *big.Int { return new(big.Int).SetBytes(ip.To16()) }
 func nOf(ip net.IP) string     { return bigOf(ip).String() }
 
 func openSockets6() {
+	// every run of this driver takes its own loopback address (127.0.2.2 .. 127.0.2.251), so that two C02
+	// runs side by side (a quick and a thorough run, a seeded-change run) never wait for each other's port
 	var err error
-	for i := 0; i < 1500; i++ { // another C02 run may hold the port for a while
-		recv6, err = net.ListenUDP("udp4", peer6)
-		if err == nil {
-			break
+	for try := 0; try < 40 && recv6 == nil; try++ {
+		for i := 2; i < 252; i++ {
+			a := &net.UDPAddr{IP: net.IPv4(127, 0, 2, byte(i)), Port: 546}
+			c, e := net.ListenUDP("udp4", a)
+			if e == nil {
+				recv6, peer6 = c, a
+				break
+			}
+			err = e
 		}
-		time.Sleep(200 * time.Millisecond)
+		if recv6 == nil {
+			time.Sleep(250 * time.Millisecond)
+		}
 	}
-	if err != nil {
-		fmt.Fprintln(os.Stderr, "cannot bind", peer6, err)
+	if recv6 == nil {
+		fmt.Fprintln(os.Stderr, "cannot bind a client socket on 127.0.2.x:546:", err)
 		os.Exit(3)
 	}
-	sock6, err = net.ListenUDP("udp4", &net.UDPAddr{IP: net.IPv4(127, 0, 2, 2), Port: 0})
+	sock6, err = net.ListenUDP("udp4", &net.UDPAddr{IP: peer6.IP, Port: 0})
 	if err != nil {
 		panic(err)
 	}
